@@ -41,6 +41,11 @@ def defaultId (rnd : Bytes) : Option Bytes := (stamp rnd).bind urn
 /-- The value of WARC-Record-ID after `Build` added the id itself (`SetId` brackets it). -/
 def recordIdField (rnd : Bytes) : Option Bytes := (defaultId rnd).bind Fields.idValue
 
+/-- The random pool gowarc enables (`uuid.EnableRandPool` in options.go): one refill is handed out in consecutive
+    16-byte slices, each once. A refill of fewer than 32 bytes is one draw. -/
+def draws (pool : Bytes) : List Bytes :=
+  if pool.length < 32 then [pool] else (List.range (pool.length / 16)).map (fun k => (pool.drop (16 * k)).take 16)
+
 /-- a lower-case hexadecimal digit -/
 def isHexLower (c : UInt8) : Bool := (48 ≤ c && c ≤ 57) || (97 ≤ c && c ≤ 102)
 
